@@ -239,7 +239,12 @@ def variable(draw, depth=0, named=True, allow_attrs=True, allow_array=True, in_p
             if nm:
                 seen_names.add(nm)
         ops = [o for o in ops if o[0] != "&"]  # result type of the pointed-to function
-        out = spec + ptr_tokens(ops) + ["(", "*", name, ")", "("]
+        # the grouped declarator itself: pointer to function (the common one), pointer to pointer, const pointer,
+        # reference to a function pointer, reference to a function
+        inner = draw(st.sampled_from([[("*", False, False)]] * 6 + [[("*", False, False), ("*", False, False)], [("*", True, False)],
+                                                                    [("*", False, False), ("&", False, False)], [("&", False, False)]]))
+        inner = [tuple(o) for o in inner]
+        out = spec + ptr_tokens(ops) + ["("] + ptr_tokens(inner) + [name, ")", "("]
         for i, p in enumerate(ps):
             if i:
                 out.append(",")
@@ -247,8 +252,10 @@ def variable(draw, depth=0, named=True, allow_attrs=True, allow_array=True, in_p
         out.append(")")
         cxx = list(out)
         model = dict(kind="fptr", base=canon, const=const, volatile=vol, ptrs=ops, name=name,
-                     params=[p["model"] for p in ps])
+                     params=[p["model"] for p in ps], inner=[list(o) for o in inner])
         feats.append("fptr")
+        if inner != [("*", False, False)]:
+            feats.append("fptr-declarator:" + "".join(o[0] + ("c" if o[1] else "") for o in inner))
     elif depth == 0 and allow_array and named and draw(st.integers(0, 11)) == 0 and \
             not (canon == "Class1" and not [o for o in ops if o[0] != "&"]):
         # pointer to an array: T (*name)[n][m]   (a grouped declarator that is not a function pointer)
